@@ -117,13 +117,20 @@ theorem flush_drift (st : St) (W : Nat) (lo stop : Rat) (hinv : TimeInv st W lo)
   · have hk := Rat.mul_le_mul_of_nonneg_left (natCast_mono (show 0 + st.phases.length ≤ 2 + st.phases.length by omega)) hd
     grind
 
-/-- flush times never decrease and there is no second power-on -/
+/-- simulation times never decrease, there is no second power-on and nothing after the destructor -/
 def Mono : Rat → List TEv → Prop
   | _, [] => True
   | lo, .newPhase _ now :: r => lo ≤ now ∧ Mono now r
-  | lo, .finish now :: r => lo ≤ now ∧ Mono now r
+  | lo, .finish now :: r => lo ≤ now ∧ r = []
   | _, .powerOn :: _ => False
   | lo, _ :: r => Mono lo r
+
+theorem le_finishStop (st : St) (now : Rat) : now ≤ finishStop st now := by
+  unfold finishStop
+  split
+  · have : (0 : Rat) ≤ ((2 + st.phases.length : Nat) : Rat) := Rat.natCast_nonneg
+    unfold psPerSec; grind
+  · exact Rat.le_refl
 
 theorem run_drift : ∀ (evs : List TEv) (j : Nat) (st : St) (W : Nat) (lo : Rat), TimeInv st W lo → Mono lo evs →
     DriftOk W (run j st evs) := by
@@ -154,19 +161,26 @@ theorem run_drift : ∀ (evs : List TEv) (j : Nat) (st : St) (W : Nat) (lo : Rat
     | finish now =>
       simp only [Mono] at hm
       simp only [step]
-      obtain ⟨h1, h2⟩ := flush_drift st W lo now hinv hm.1
-      exact ⟨h1, ih _ _ _ now h2 hm.2⟩
-    | newPhase after now =>
+      obtain ⟨h1, h2⟩ := flush_drift st W lo (finishStop st now) hinv (Rat.le_trans hm.1 (le_finishStop st now))
+      obtain ⟨_, rfl⟩ := hm
+      exact ⟨h1, by simp [run, DriftOk]⟩
+    | newPhase ph now =>
       simp only [Mono] at hm
-      simp only [step]
-      cases after with
-      | true =>
-        simp only [if_true]
-        obtain ⟨h1, h2⟩ := flush_drift st W lo now hinv hm.1
-        refine ⟨h1, ih _ _ _ now ⟨h2.written, h2.le_start, h2.start_le⟩ hm.2⟩
-      | false =>
-        simp only [Bool.false_eq_true, if_false, DriftOk, advSum, Nat.add_zero, true_and]
+      cases ph with
+      | before =>
+        simp only [step, DriftOk, advSum, Nat.add_zero, true_and]
         exact ih _ _ W now ⟨hinv.written, hinv.le_start, Rat.le_trans hinv.start_le hm.1⟩ hm.2
+      | during =>
+        simp only [step, DriftOk, advSum, Nat.add_zero, true_and]
+        exact ih _ _ W now ⟨hinv.written, hinv.le_start, Rat.le_trans hinv.start_le hm.1⟩ hm.2
+      | after =>
+        simp only [step]
+        by_cases hp : st.pending = true
+        · simp only [hp, if_true, DriftOk, advSum, Nat.add_zero, true_and]
+          exact ih _ _ W now ⟨hinv.written, hinv.le_start, Rat.le_trans hinv.start_le hm.1⟩ hm.2
+        · simp only [hp, if_false]
+          obtain ⟨h1, h2⟩ := flush_drift st W lo now hinv hm.1
+          refine ⟨h1, ih _ _ _ now ⟨h2.written, h2.le_start, h2.start_le⟩ hm.2⟩
 
 theorem driftOk_split : ∀ (pre : List Group) (g : Group) (post : List Group) (W : Nat), DriftOk W (pre ++ g :: post) →
     ((W + advSum pre + g.adv : Nat) : Rat) / psPerSec ≤ g.target ∧
